@@ -30,6 +30,10 @@ RULE = ('part 1: case = JSON value spec decoded by gv.pyvals.build into a Python
         'return/raise/dict-key/trigger, value spec rendered to formula source with helper classes defined inside '
         'the formula), how they are installed (AddTable/AddColumn/ModifyColumn), a later cell edit and its undo}; '
         'every call goes through sandbox.Sandbox.run()/_send_to_js over in-memory pipes. '
+        'Besides the Hypothesis-generated cases an enumerated part runs every specimen of a fixed gallery (221 value '
+        'specs covering each shape) under 10 wrappers (bare, list, tuple, dict value, dict key, set, exception input, '
+        'list subclass, 5-deep dict, shared pair) in part 1, and installs every specimen as a formula (mode and column '
+        'type rotating in quick, all 5 modes x 2 column types in thorough) plus a gallery of 63 client-sent cells in part 2. '
         'Non-trivial = the value (part 1) or at least one formula value / client cell (part 2) is not a plain '
         'primitive (None/bool/int32/finite float/str); distinct by case.')
 ORACLE = ('part 1: encode_object(v) does not raise; marshal.dumps(encoded, 2) succeeds and marshal.loads gives back a '
@@ -49,8 +53,8 @@ ASSUMPTIONS = ['transport = marshal version 2 exactly as sandbox.Sandbox._send_t
                'decode_object documents it tolerates',
                'formulas may define classes and import modules (the sandbox is process-level, not language-level)']
 TECHNIQUE = 'round-trip PBT + in-memory transport differential'
-BUDGET = {'quick': dict(examples=1000, shards=8, max_seconds=60),
-          'thorough': dict(examples=32000, shards=16, max_seconds=600)}
+BUDGET = {'quick': dict(examples=600, shards=8, max_seconds=60),
+          'thorough': dict(examples=24000, shards=16, max_seconds=600)}
 MIN_NONTRIVIAL = 10
 
 PROD_RECURSION_LIMIT = 1000
@@ -139,7 +143,7 @@ def origin_of(exc):
   while tb is not None:
     code = tb.tb_frame.f_code
     if code.co_filename.startswith(env.GRIST):
-      where = '%s.%s' % (code.co_filename[len(env.GRIST) + 1:].rsplit('.', 1)[0].replace('/', '.'), code.co_name)
+      where = '%s.%s' % (code.co_filename[len(env.GRIST) + 1:].rsplit('.', 1)[0].replace('/', '.'), getattr(code, 'co_qualname', code.co_name))
     tb = tb.tb_next
   return '%s@%s' % (type(exc).__name__, where)
 
@@ -527,6 +531,38 @@ def run_case(case):
   if case.get('p') == 2:
     return run_program(case)
   return run_value(case)
+
+
+# ---- enumerated part: every gallery specimen, systematically wrapped / installed ----------------
+CELL_GALLERY = [None, True, 0, -5, 2 ** 31 - 1, 1.5, float('nan'), float('inf'), '', 'abc', '12', '2020-01-01', '[1,2]', '\ud800',
+                ['L'], ['L', 1, 2], ['L', 'a', 'b'], ['L', ['L', 1], None], ['O', {}], ['O', {'a': 1, 'b': ['d', 86400]}],
+                ['D', 1577836800, 'UTC'], ['D', 1577836800.5, 'America/New_York'], ['D', -1e11, 'Asia/Kolkata'], ['d', 86400],
+                ['d', -86400.0], ['R', 'Tbl', 1], ['R', 'Other', 2], ['R', 'Nope', 1], ['r', 'Tbl', [1, 2]], ['r', 'Other', []],
+                ['E', 'ValueError'], ['E', 'ValueError', 'msg', 'details'], ['E', 'TypeError', None, None, {'u': 5}],
+                ['E', 'InvalidTypedValue', 'Int', 'abc'], ['E', 'KeyError', 'm', None, {'u': ['L', ['d', 5]]}], ['P'], ['C'],
+                ['U', 'repr'], ['l', 'x', {'column': 'B'}], ['l', [5, 6], {'column': 'A'}], ['l', 'zz', {'column': 'B', 'raw': 'zz'}],
+                [], ['D', 'x', 'UTC'], ['D', 1, 'No/Zone'], ['D', 1], ['d', 'x'], ['d'], ['O', [1]], ['O'], ['E'], ['R', 'Tbl'],
+                ['r', 'Tbl', 3], ['X', 1], ['l'], [1, 2], ['LL', 1], ['V', {}], ['S'], ['D', float('nan'), 'UTC'],
+                ['d', float('inf')], ['D', 1e300, 'UTC'], ['U'], ['L', ['L', ['X']]]]
+
+
+def enumerate_cases(tier):
+  g = pyvals.gallery('encode')
+  for spec in g:
+    for w in pyvals.WRAPPERS:
+      yield {'p': 1, 'v': pyvals.wrap(spec, w)}
+  for i, spec in enumerate(g):
+    modes = MODES if tier == 'thorough' else [MODES[i % len(MODES)]]
+    for j, mode in enumerate(modes):
+      ftypes = [0, 3 + (i + j) % (len(FTYPES) - 3)] if tier == 'thorough' else [0 if i % 3 else 3 + i % (len(FTYPES) - 3)]
+      for ft in ftypes:
+        yield {'p': 2, 'dtype': i % len(DTYPES), 'cells': [], 'formulas': [{'type': ft, 'mode': mode, 'v': spec}],
+               'via': ['AddColumn', 'ModifyColumn', 'AddTable'][(i + j) % 3], 'edit': 'x', 'undo': bool(i % 2)}
+  for i, cell in enumerate(CELL_GALLERY):
+    dts = range(len(DTYPES)) if tier == 'thorough' else [i % len(DTYPES), (i * 7 + 3) % len(DTYPES)]
+    for dt in dts:
+      yield {'p': 2, 'dtype': dt, 'cells': [cell, None, cell], 'formulas': [{'type': 0, 'mode': 'trigger', 'v': 1}] if i % 2 else [],
+             'via': 'AddColumn', 'edit': cell, 'undo': True}
 
 
 # ---- strategies ---------------------------------------------------------------------------------
